@@ -21,51 +21,59 @@
 #ifndef FE_MAXMAG
 # define FE_MAXMAG 32
 #endif
+/* the magnitude-32 units of the 10x26 layout carry their own obligation names (known finding F2) */
+#ifdef FE_M32_FINDING
+# define FE_TAG "[10x26,m=32]"
+# define FE_MINMAG 32
+#else
+# define FE_TAG ""
+# define FE_MINMAG 0
+#endif
 #ifndef VERIF_NATIVE
 /* ---------------------------------------------------------------- normalize family */
 void h_fe_normalize(void) {
     INPUT(secp256k1_fe, a); INPUT(int, m);
     secp256k1_fe r; wide vin;
-    __CPROVER_assume(m >= 0 && m <= FE_MAXMAG && sa_fe_mag(&a, m)); FE_FIELDS(a, m, 0);
+    __CPROVER_assume(m >= FE_MINMAG && m <= FE_MAXMAG && sa_fe_mag(&a, m)); FE_FIELDS(a, m, 0);
     r = a; vin = fval(&a);
     secp256k1_fe_normalize(&r);
-    __CPROVER_assert(sa_fe_limbs_tight(&r), "C05 fe_normalize: every output limb within its width");
-    __CPROVER_assert(fval(&r) < P_(), "C05 fe_normalize: output value below p (canonical)");
-    __CPROVER_assert(vin >= fval(&r) && sa_cong_p(vin, fval(&r)), "C05 fe_normalize: output congruent to input mod p");
-    __CPROVER_assert(sa_quot_p(vin, fval(&r)) <= 65, "C05 fe_normalize: quotient witness small (input below 2^262)");
+    __CPROVER_assert(sa_fe_limbs_tight(&r), "C05 fe_normalize" FE_TAG ": every output limb within its width");
+    __CPROVER_assert(fval(&r) < P_(), "C05 fe_normalize" FE_TAG ": output value below p (canonical)");
+    __CPROVER_assert(vin >= fval(&r) && sa_cong_p(vin, fval(&r)), "C05 fe_normalize" FE_TAG ": output congruent to input mod p");
+    __CPROVER_assert(sa_quot_p(vin, fval(&r)) <= 65, "C05 fe_normalize" FE_TAG ": quotient witness small (input below 2^262)");
     if (m == FE_MAXMAG && vin > ((P_() << 5) - P_() - P_())) REACH("fe_normalize maximal magnitude, value above 30p");
     if (vin == P_()) REACH("fe_normalize input exactly p");
 }
 void h_fe_normalize_var(void) {
     INPUT(secp256k1_fe, a); INPUT(int, m);
     secp256k1_fe r; wide vin;
-    __CPROVER_assume(m >= 0 && m <= FE_MAXMAG && sa_fe_mag(&a, m)); FE_FIELDS(a, m, 0);
+    __CPROVER_assume(m >= FE_MINMAG && m <= FE_MAXMAG && sa_fe_mag(&a, m)); FE_FIELDS(a, m, 0);
     r = a; vin = fval(&a);
     secp256k1_fe_normalize_var(&r);
-    __CPROVER_assert(sa_fe_limbs_tight(&r), "C05 fe_normalize_var: every output limb within its width");
-    __CPROVER_assert(fval(&r) < P_(), "C05 fe_normalize_var: output value below p (canonical)");
-    __CPROVER_assert(vin >= fval(&r) && sa_cong_p(vin, fval(&r)), "C05 fe_normalize_var: output congruent to input mod p");
+    __CPROVER_assert(sa_fe_limbs_tight(&r), "C05 fe_normalize_var" FE_TAG ": every output limb within its width");
+    __CPROVER_assert(fval(&r) < P_(), "C05 fe_normalize_var" FE_TAG ": output value below p (canonical)");
+    __CPROVER_assert(vin >= fval(&r) && sa_cong_p(vin, fval(&r)), "C05 fe_normalize_var" FE_TAG ": output congruent to input mod p");
     if (m == FE_MAXMAG && vin > ((P_() << 5) - P_() - P_())) REACH("fe_normalize_var maximal magnitude, value above 30p");
     if (vin == P_() + 1) REACH("fe_normalize_var input p+1");
 }
 void h_fe_normalize_weak(void) {
     INPUT(secp256k1_fe, a); INPUT(int, m);
     secp256k1_fe r; wide vin;
-    __CPROVER_assume(m >= 0 && m <= FE_MAXMAG && sa_fe_mag(&a, m)); FE_FIELDS(a, m, 0);
+    __CPROVER_assume(m >= FE_MINMAG && m <= FE_MAXMAG && sa_fe_mag(&a, m)); FE_FIELDS(a, m, 0);
     r = a; vin = fval(&a);
     secp256k1_fe_normalize_weak(&r);
-    __CPROVER_assert(sa_fe_mag(&r, 1), "C05 fe_normalize_weak: output has magnitude 1");
-    __CPROVER_assert(sa_cong_p(vin, fval(&r)), "C05 fe_normalize_weak: output congruent to input mod p");
+    __CPROVER_assert(sa_fe_mag(&r, 1), "C05 fe_normalize_weak" FE_TAG ": output has magnitude 1");
+    __CPROVER_assert(sa_cong_p(vin, fval(&r)), "C05 fe_normalize_weak" FE_TAG ": output congruent to input mod p");
     if (m == FE_MAXMAG && vin > ((P_() << 5) - P_() - P_())) REACH("fe_normalize_weak maximal magnitude, value above 30p");
 }
 void h_fe_ntz(void) {
     INPUT(secp256k1_fe, a); INPUT(int, m);
     int r1, r2;
-    __CPROVER_assume(m >= 0 && m <= FE_MAXMAG && sa_fe_mag(&a, m)); FE_FIELDS(a, m, 0);
+    __CPROVER_assume(m >= FE_MINMAG && m <= FE_MAXMAG && sa_fe_mag(&a, m)); FE_FIELDS(a, m, 0);
     r1 = secp256k1_fe_normalizes_to_zero(&a);
     r2 = secp256k1_fe_normalizes_to_zero_var(&a);
-    __CPROVER_assert(r1 == sa_cong_p(fval(&a), 0), "C05 fe_normalizes_to_zero: returns 1 exactly when the value is a multiple of p");
-    __CPROVER_assert(r2 == sa_cong_p(fval(&a), 0), "C05 fe_normalizes_to_zero_var: returns 1 exactly when the value is a multiple of p");
+    __CPROVER_assert(r1 == sa_cong_p(fval(&a), 0), "C05 fe_normalizes_to_zero" FE_TAG ": returns 1 exactly when the value is a multiple of p");
+    __CPROVER_assert(r2 == sa_cong_p(fval(&a), 0), "C05 fe_normalizes_to_zero_var" FE_TAG ": returns 1 exactly when the value is a multiple of p");
     if (r1 && fval(&a) == 0) REACH("ntz raw zero");
     if (r1 && fval(&a) == P_()) REACH("ntz raw p");
     if (r1 && fval(&a) > (P_() << 4)) REACH("ntz large multiple of p");
